@@ -395,7 +395,15 @@ func forallBefore(f *chk.Fn, g *chk.Graph, rs *ast.RangeStmt, phi chk.Guard, sit
 	}
 	// flag idiom: a boolean that is cleared (F = false), or an error / pointer that is set (F = non-nil), when the check fails
 	type flagKind struct{ cleared, required chk.Guard }
-	flags := map[types.Object]bool{} // value: true for the nil-able kind
+	// candidates: 0 boolean marked with false, 1 boolean marked with true, 2 nil-able marked with a non-nil value
+	flags := map[types.Object]int{}
+	conflict := map[types.Object]bool{}
+	note := func(o types.Object, k int) {
+		if old, ok := flags[o]; ok && old != k {
+			conflict[o] = true
+		}
+		flags[o] = k
+	}
 	ast.Inspect(rs.Body, func(n ast.Node) bool {
 		if as, ok := n.(*ast.AssignStmt); ok && len(as.Lhs) == len(as.Rhs) && as.Tok == token.ASSIGN {
 			for i, l := range as.Lhs {
@@ -403,9 +411,11 @@ func forallBefore(f *chk.Fn, g *chk.Graph, rs *ast.RangeStmt, phi chk.Guard, sit
 					if o := f.ObjOf(id); o != nil {
 						switch {
 						case f.IsConstBool(as.Rhs[i], false):
-							flags[o] = false
+							note(o, 0)
+						case f.IsConstBool(as.Rhs[i], true):
+							note(o, 1)
 						case f.KnownNonNil(as.Rhs[i]):
-							flags[o] = true
+							note(o, 2)
 						}
 					}
 				}
@@ -413,10 +423,18 @@ func forallBefore(f *chk.Fn, g *chk.Graph, rs *ast.RangeStmt, phi chk.Guard, sit
 		}
 		return true
 	})
-	for fl, nilable := range flags {
+	for fl, k := range flags {
+		if conflict[fl] {
+			continue
+		}
 		isF := f.IsObj(fl)
-		kind := flagKind{cleared: chk.GBool(false, isF), required: chk.GBool(true, isF)}
-		if nilable {
+		var kind flagKind
+		switch k {
+		case 0:
+			kind = flagKind{cleared: chk.GBool(false, isF), required: chk.GBool(true, isF)}
+		case 1:
+			kind = flagKind{cleared: chk.GBool(true, isF), required: chk.GBool(false, isF)}
+		default:
 			kind = flagKind{cleared: g.GExprNil(false, isF), required: g.GExprNil(true, isF)}
 		}
 		setBack := false
@@ -426,9 +444,9 @@ func forallBefore(f *chk.Fn, g *chk.Graph, rs *ast.RangeStmt, phi chk.Guard, sit
 					if !isF(l) {
 						continue
 					}
-					clearing := i < len(as.Rhs) && len(as.Lhs) == len(as.Rhs) &&
-						((!nilable && f.IsConstBool(as.Rhs[i], false)) || (nilable && f.KnownNonNil(as.Rhs[i])))
-					if !clearing {
+					marking := i < len(as.Rhs) && len(as.Lhs) == len(as.Rhs) &&
+						((k == 0 && f.IsConstBool(as.Rhs[i], false)) || (k == 1 && f.IsConstBool(as.Rhs[i], true)) || (k == 2 && f.KnownNonNil(as.Rhs[i])))
+					if !marking {
 						setBack = true
 					}
 				}
@@ -454,7 +472,7 @@ func forallBefore(f *chk.Fn, g *chk.Graph, rs *ast.RangeStmt, phi chk.Guard, sit
 			continue
 		}
 		if !g.Dominated(site, kind.required) {
-			why = append(why, "flag idiom: the result does not require "+fl.Name())
+			why = append(why, "flag idiom: the result does not require "+fl.Name()+" to be unmarked")
 			continue
 		}
 		return ""
@@ -644,3 +662,37 @@ type posNode token.Pos
 
 func (p posNode) Pos() token.Pos { return token.Pos(p) }
 func (p posNode) End() token.Pos { return token.Pos(p) }
+
+// elementOf returns a predicate: the expression is an element of a collection
+// satisfying coll - the value variable of a range over it, or an index into it
+// (both through temporaries: `l := a.m[k]; for i := range l { l[i] }`).
+func elementOf(f *chk.Fn, coll func(ast.Expr) bool) func(ast.Expr) bool {
+	isColl := func(e ast.Expr) bool {
+		return coll(e) || (f.Resolve(e) != e && coll(f.Resolve(e)))
+	}
+	return func(e ast.Expr) bool {
+		for _, rs := range f.RangeLoops(coll) {
+			if rangeVal(f, rs)(e) {
+				return true
+			}
+		}
+		r := f.Resolve(e)
+		for i := 0; i < 3; i++ {
+			switch x := ast.Unparen(r).(type) {
+			case *ast.UnaryExpr:
+				if x.Op == token.AND {
+					r = f.Resolve(x.X)
+					continue
+				}
+			case *ast.StarExpr:
+				r = f.Resolve(x.X)
+				continue
+			}
+			break
+		}
+		if ix, ok := ast.Unparen(r).(*ast.IndexExpr); ok {
+			return isColl(ix.X)
+		}
+		return false
+	}
+}
